@@ -126,6 +126,49 @@ func main() {
 			}
 		}
 	}
+	// argument readers (functions named next*) classified by what they return
+	readerKind := map[string]string{}
+	for _, f := range files {
+		for _, d := range f.Decls {
+			fd, ok := d.(*ast.FuncDecl)
+			if !ok || fd.Recv != nil || !strings.HasPrefix(fd.Name.Name, "next") || fd.Type.Results == nil {
+				continue
+			}
+			var kinds []string
+			for _, r := range fd.Type.Results.List {
+				t := nodeString(fset, names, r.Type)
+				n := len(r.Names)
+				if n == 0 {
+					n = 1
+				}
+				for i := 0; i < n; i++ {
+					switch t {
+					case "string":
+						kinds = append(kinds, "S")
+					case "int":
+						kinds = append(kinds, "I")
+					case "float64":
+						kinds = append(kinds, "F")
+					case "[]string":
+						kinds = append(kinds, "L")
+					case "map[string]string":
+						kinds = append(kinds, "P")
+					case "bool":
+						kinds = append(kinds, "B")
+					case "error":
+					default:
+						kinds = append(kinds, "<"+t+">")
+					}
+				}
+			}
+			readerKind[fd.Name.Name] = strings.Join(kinds, "")
+		}
+	}
+	type shape struct {
+		name  string
+		calls []string
+	}
+	var shapes []shape
 	var table []access
 	var commands []string
 	typeBytes := map[string]string{}
@@ -166,6 +209,41 @@ func main() {
 						if _, sel := selName(call.Fun); sel == "RegisterExexutor" && len(call.Args) > 0 {
 							if lit, ok := call.Args[0].(*ast.BasicLit); ok {
 								commands = append(commands, strings.Trim(lit.Value, `"`))
+								// the executor's shape: which argument readers it calls, in source order, and which handler
+								// operation it reaches
+								if fl, ok := call.Args[1].(*ast.FuncLit); ok {
+									sh := shape{name: strings.Trim(lit.Value, `"`)}
+									ast.Inspect(fl.Body, func(m ast.Node) bool {
+										c, ok := m.(*ast.CallExpr)
+										if !ok {
+											return true
+										}
+										if id, ok := c.Fun.(*ast.Ident); ok && strings.HasPrefix(id.Name, "next") {
+											k := readerKind[id.Name]
+											if k == "" {
+												k = "?" + id.Name
+											}
+											sh.calls = append(sh.calls, k)
+										}
+										if se, ok := c.Fun.(*ast.SelectorExpr); ok {
+											if inner, ok := se.X.(*ast.SelectorExpr); ok {
+												switch inner.Sel.Name {
+												case "userCommandHandler":
+													sh.calls = append(sh.calls, "H:"+se.Sel.Name)
+												case "systemCommandHandler":
+													sh.calls = append(sh.calls, "Y:"+se.Sel.Name)
+												case "authCommandHandler":
+													sh.calls = append(sh.calls, "A:"+se.Sel.Name)
+												}
+											}
+											if se.Sel.Name == "executeCommand" || se.Sel.Name == "Execute" {
+												sh.calls = append(sh.calls, "X")
+											}
+										}
+										return true
+									})
+									shapes = append(shapes, sh)
+								}
 							}
 						}
 					}
@@ -347,6 +425,17 @@ func main() {
 	}
 	sb.WriteString("]\n\n")
 	sb.WriteString("def registeredCommands : List String := [" + quoteJoin(commands) + "]\n\n")
+	sort.Slice(shapes, func(i, j int) bool { return shapes[i].name < shapes[j].name })
+	sb.WriteString("/-- per registered command: the kinds of argument readers its executor calls, in source order (S string, I int,\nF float, L string list, P pairs, ...), and the handler operations it reaches -/\n")
+	sb.WriteString("def executorShapes : List (String × List String) := [\n")
+	for i, sh := range shapes {
+		sep := ","
+		if i == len(shapes)-1 {
+			sep = ""
+		}
+		fmt.Fprintf(&sb, "  (%q, [%s])%s\n", sh.name, quoteJoin(sh.calls), sep)
+	}
+	sb.WriteString("]\n\n")
 	var tb []string
 	for k, v := range typeBytes {
 		tb = append(tb, fmt.Sprintf("(%q, %q)", k, strings.Trim(v, "'")))
